@@ -423,6 +423,15 @@ func (c *Cache) Snapshot() (*Cache, error) {
 	return c.snapshot, nil
 }
 
+// retryingSnapshot reports whether the snapshot handed out by the last call to
+// Snapshot is a previously failed snapshot being retried. Such a snapshot does
+// not contain the writes made since its first attempt.
+func (c *Cache) retryingSnapshot() bool {
+	c.mu.RLock()
+	defer c.mu.RUnlock()
+	return c.snapshotAttempts > 1
+}
+
 // Deduplicate sorts the snapshot before returning it. The compactor and any queries
 // coming in while it writes will need the values sorted.
 func (c *Cache) Deduplicate() {
